@@ -8,7 +8,7 @@ from specs.ev import EV, EVX, EV3, EVX3, D, okD, okN
 from specs.strings import fmt, fmt_ok, wfp, is_literal, litval, walk, jsonlike
 from specs.rules import lookup
 from specs.printer import pr
-from specs.wf import wf_tree, evalok, tree_axioms, eval_axioms, ctx_ok, http_ctx
+from specs.wf import wf_tree, wf_eval, tree_axioms, eval_axioms, ctx_ok, http_ctx
 from pyvc.builtins_ import f_join
 from pyvc.builtins_ import f_lower, f_split
 from .util import rules_store_pre, mapping, json_axioms, walk_unfold, args5, eval_defs, is_check, all_checks, forall_idx, exists_idx, EVAL_RAISES
@@ -21,7 +21,7 @@ def ev_axioms(cx):
 
 def ev_pre(cx):
     s, t, c, e, cur = args5(cx)
-    return [('evaluable-in-context', evalok(s, t, c, e))]
+    return [('check-tree-is-evaluable', wf_eval(s, e)), ('target-and-credentials-are-valid', ctx_ok(cx.eng, cx.st0, t, c))]
 
 
 def register(reg, stubs, world):
@@ -59,7 +59,8 @@ def register(reg, stubs, world):
 
     # ------------------------------------------------------------------ _check
     def check_pre(cx):
-        return [('rule-is-evaluable-in-context', evalok(cx['rule'], cx['target'], cx['creds'], cx['enforcer']))]
+        return [('rule-is-evaluable', wf_eval(cx['rule'], cx['enforcer'])),
+                ('target-and-credentials-are-valid', ctx_ok(cx.eng, cx.st0, cx['target'], cx['creds']))]
 
     def check_axioms(cx):
         return eval_axioms(cx.eng, cx.st0) + json_axioms(cx.eng, cx['creds'])
@@ -305,8 +306,14 @@ def register(reg, stubs, world):
     reg.add(Contract('_checks:OrCheck.__str__', pre=leaf_str_pre, post=conn_str_post('or'), defs=str_defs,
                      axioms=tr_axioms, loops={1: printed}, props=('C15',)))
 
-    # str() of any other object (user-defined checks, opaque objects): some string, no exception
+    # str(o) for an object: dynamic dispatch summarised by the class-indexed __str__ contracts above
+    def anystr_pre(cx):
+        o = cx['o']
+        return [('a-check-is-a-well-formed-tree', z3.Implies(cx.eng.isinst(o, 'BaseCheck'), wf_tree(o)))]
+
     def anystr_post(cx, out):
         return [out.value == V.str(pr(cx['o']))] if out.kind == 'ret' else [z3.BoolVal(False)]
-    reg.add(Contract('$str', post=anystr_post, params=['o'], trusted=True,
-                     doc='str(o) of an object without a __str__ contract returns some string (pr(o)) and does not raise'))
+    reg.add(Contract('$str', pre=anystr_pre, post=anystr_post, params=['o'], trusted=True, axioms=tr_axioms,
+                     doc='str(o) == pr(o) and does not raise: for the built-in check classes this is the proved '
+                         '__str__ contract of the dynamic class (which defines pr); for any other object it is an '
+                         'assumption (str() of plain objects, exceptions, RuleDefault, user-defined checks)'))
